@@ -27,9 +27,10 @@ def Res.All {α : Type} (P : Sess → Prop) : Res α → Prop
 structure ClosedIO (P : Sess → Prop) : Prop where
   hs : ∀ s, P s → P { s with hs := true }
   fromBuf : ∀ s o u rest, P s → s.buf = (o, u) :: rest → P { s with buf := rest, trace := .deliver o s.tls :: s.trace }
-  fromTls : ∀ s rest, P s → s.tls = true → P { s with prot := rest, trace := .deliver false true :: s.trace }
-  fromClear : ∀ s b rest, P s → s.tls = false →
-    P { s with buf := b, clear := rest, trace := .deliver true false :: s.trace }
+  fromTls : ∀ s u rest, P s → s.tls = true → s.buf = [] → s.prot = .unit u :: rest →
+    P { s with prot := rest, trace := .deliver false true :: s.trace }
+  fromClear : ∀ s u us rest, P s → s.tls = false → s.buf = [] → pullClear s.clear = some (u, us, rest) →
+    P { s with buf := us.map (fun x => (true, x)), clear := rest, trace := .deliver true false :: s.trace }
 
 theorem handshake_all {P : Sess → Prop} (h : ClosedIO P) (s : Sess) (hp : P s) :
     (handshake s).All P := by
@@ -68,11 +69,13 @@ theorem pull_all {P : Sess → Prop} (h : ClosedIO P) (s : Sess) (hp : P s) :
   split
   · next o u rest hbuf =>
     exact h.fromBuf s o u rest hp hbuf
-  · have := handshake_all h s hp
+  · next hbuf =>
+    have := handshake_all h s hp
     cases hh : handshake s with
     | stop w s' => rw [hh] at this; exact this
     | ok a s' =>
       rw [hh] at this
+      have hb' : s'.buf = [] := by rw [(handshake_tls s a s' hh).2]; exact hbuf
       simp only
       split
       · next ht =>
@@ -81,11 +84,11 @@ theorem pull_all {P : Sess → Prop} (h : ClosedIO P) (s : Sess) (hp : P s) :
         · split
           · exact this
           · exact this
-          · exact h.fromTls s' _ this ht
+          · next u rest hprot => exact h.fromTls s' u rest this ht hb' hprot
       · next ht =>
         split
         · exact this
-        · exact h.fromClear s' _ _ this (by simpa using ht)
+        · next u us rest hpc => exact h.fromClear s' u us rest this (by simpa using ht) hb' hpc
 
 theorem expectHdr_all {P : Sess → Prop} (h : ClosedIO P) : ∀ n s, P s → (expectHdr n s).All P := by
   intro n
@@ -317,8 +320,8 @@ def PA (s : Sess) : Prop := s.tls = true ∧ Sec s ∧ NCO s.trace
 theorem PA_io : ClosedIO PA where
   hs := fun s ⟨a, b, c⟩ => ⟨a, b, c⟩
   fromBuf := fun s o u rest ⟨a, b, c⟩ _ => ⟨a, b, (NCO_cons _ _).2 ⟨rfl, c⟩⟩
-  fromTls := fun s rest ⟨a, b, c⟩ _ => ⟨a, b, (NCO_cons _ _).2 ⟨rfl, c⟩⟩
-  fromClear := fun s b rest ⟨a, b', c⟩ _ => ⟨a, b', (NCO_cons _ _).2 ⟨rfl, c⟩⟩
+  fromTls := fun s u rest ⟨a, b, c⟩ _ _ _ => ⟨a, b, (NCO_cons _ _).2 ⟨rfl, c⟩⟩
+  fromClear := fun s u us rest ⟨a, b', c⟩ _ _ _ => ⟨a, b', (NCO_cons _ _).2 ⟨rfl, c⟩⟩
 
 theorem PA_neg : ClosedNeg PA where
   wHdr := fun s ⟨a, b, c⟩ => ⟨a, b, (NCO_cons _ _).2 ⟨rfl, c⟩⟩
@@ -357,7 +360,7 @@ theorem PB_io : ClosedIO PB where
     · rw [ht]; cases o <;> rfl
     · exact b e he
   fromTls := by
-    intro s rest ⟨a, b⟩ _
+    intro s u rest ⟨a, b⟩ _ _ _
     refine ⟨a, ?_⟩
     intro e he
     simp only [List.mem_cons] at he
@@ -365,7 +368,7 @@ theorem PB_io : ClosedIO PB where
     · rfl
     · exact b e he
   fromClear := by
-    intro s bf rest ⟨a, b⟩ ht
+    intro s u us rest ⟨a, b⟩ ht _ _
     refine ⟨fun h => by simp [ht] at h, ?_⟩
     intro e he
     simp only [List.mem_cons] at he
@@ -433,14 +436,14 @@ theorem ClearPre_ev (st0 : Mask) (s : Sess) (e : Ev) (he : okEv e = true) (h : C
 theorem ClearPre_io (st0 : Mask) : ClosedIO (ClearPre st0) where
   hs := fun s h => ⟨h.st, h.sec, h.tls, h.neg, h.nco⟩
   fromBuf := fun s o u rest h _ => ⟨h.st, h.sec, h.tls, h.neg, (NCO_cons _ _).2 ⟨rfl, h.nco⟩⟩
-  fromTls := fun s rest h _ => ⟨h.st, h.sec, h.tls, h.neg, (NCO_cons _ _).2 ⟨rfl, h.nco⟩⟩
-  fromClear := fun s bf rest h _ => ⟨h.st, h.sec, h.tls, h.neg, (NCO_cons _ _).2 ⟨rfl, h.nco⟩⟩
+  fromTls := fun s u rest h _ _ _ => ⟨h.st, h.sec, h.tls, h.neg, (NCO_cons _ _).2 ⟨rfl, h.nco⟩⟩
+  fromClear := fun s u us rest h _ _ _ => ⟨h.st, h.sec, h.tls, h.neg, (NCO_cons _ _).2 ⟨rfl, h.nco⟩⟩
 
 theorem ClearFirst_io (st0 : Mask) : ClosedIO (ClearFirst st0) where
   hs := fun s ⟨h, f⟩ => ⟨(ClearPre_io st0).hs s h, f⟩
   fromBuf := fun s o u rest ⟨h, f⟩ hb => ⟨(ClearPre_io st0).fromBuf s o u rest h hb, f⟩
-  fromTls := fun s rest ⟨h, f⟩ ht => ⟨(ClearPre_io st0).fromTls s rest h ht, f⟩
-  fromClear := fun s bf rest ⟨h, f⟩ ht => ⟨(ClearPre_io st0).fromClear s bf rest h ht, f⟩
+  fromTls := fun s u rest ⟨h, f⟩ ht hb hp => ⟨(ClearPre_io st0).fromTls s u rest h ht hb hp, f⟩
+  fromClear := fun s u us rest ⟨h, f⟩ ht hb hp => ⟨(ClearPre_io st0).fromClear s u us rest h ht hb hp, f⟩
 
 def Res.Both {α : Type} (Pok : α → Sess → Prop) (Pstop : Sess → Prop) : Res α → Prop
   | .ok a s => Pok a s
